@@ -22,6 +22,8 @@ def eval_program(arg) -> dict:
     # one program per run wraps a component whose two rerouted ports use interfaces from
     # unrelated namespaces, each referring to its own extern of the same simple name
     twins = stream % 6 == 2
+    if twins and stream % 12 == 8:
+        twins = 'same-names'     # ... and the two interfaces and their events share their names too
     prog, case, _rng = progrun.make_program(PROP, seed, stream, scratch, want_mc,
                                             mc_position=['first', 'middle', 'last'][(stream // 3) % 3],
                                             mc_shape=stream // 3, twins=twins,
